@@ -15,6 +15,13 @@ import (
 
 	"github.com/q191201771/lal/pkg/base"
 	"github.com/q191201771/lal/pkg/logic"
+	"crypto/ecdsa"
+	"crypto/elliptic"
+	crand "crypto/rand"
+	"crypto/x509"
+	"crypto/x509/pkix"
+	"encoding/pem"
+	"math/big"
 )
 
 type SimpleAuth struct {
@@ -49,6 +56,7 @@ type Conf struct {
 	RtspUser, RtspPass              string
 	RecFlv, RecTs                   bool
 	PushAddrs                       []string
+	FlvHttpsOnly, TsHttpsOnly       bool // httpflv / httpts: enable=false, enable_https=true (served on HttpsAddr with a self-signed certificate)
 	HlsHttpsOnly                    bool // hls.enable=false, hls.enable_https=true (segments are still produced on disk; the https listener has no certificate here)
 	StaticPull                      string
 	Api                             bool
@@ -60,7 +68,7 @@ type Conf struct {
 }
 
 type Ports struct {
-	Rtmp, Http, Rtsp, WsRtsp, Api int
+	Rtmp, Http, Rtsp, WsRtsp, Api, Https int
 }
 
 type Server struct {
@@ -78,6 +86,7 @@ func (s *Server) RtmpAddr() string { return fmt.Sprintf("127.0.0.1:%d", s.Ports.
 func (s *Server) HttpAddr() string { return fmt.Sprintf("127.0.0.1:%d", s.Ports.Http) }
 func (s *Server) RtspAddr() string { return fmt.Sprintf("127.0.0.1:%d", s.Ports.Rtsp) }
 func (s *Server) ApiAddr() string  { return fmt.Sprintf("127.0.0.1:%d", s.Ports.Api) }
+func (s *Server) HttpsAddr() string { return fmt.Sprintf("127.0.0.1:%d", s.Ports.Https) }
 
 // FreePort returns a TCP port that was free a moment ago.
 func FreePort() int {
@@ -159,11 +168,12 @@ func Start(c Conf, root string) (*Server, error) {
 
 func start1(c Conf, root string) (*Server, error) {
 	s := &Server{Conf: c, Root: root, Notify: NewRecorder(), done: make(chan error, 1)}
-	fp := FreePorts(5)
-	s.Ports = Ports{Rtmp: fp[0], Http: fp[1], Rtsp: fp[2], WsRtsp: fp[3], Api: fp[4]}
+	fp := FreePorts(6)
+	s.Ports = Ports{Rtmp: fp[0], Http: fp[1], Rtsp: fp[2], WsRtsp: fp[3], Api: fp[4], Https: fp[5]}
 	s.Notify.PortProto = map[string][]string{
 		fmt.Sprint(s.Ports.Rtmp):   {"RTMP"},
 		fmt.Sprint(s.Ports.Http):   {"FLV", "TS", "HLS"},
+		fmt.Sprint(s.Ports.Https):  {"FLV", "TS", "HLS"},
 		fmt.Sprint(s.Ports.Rtsp):   {"RTSP"},
 		fmt.Sprint(s.Ports.WsRtsp): {"RTSP"},
 	}
@@ -190,13 +200,23 @@ func start1(c Conf, root string) (*Server, error) {
 	if c.RtspUser == "" {
 		c.RtspUser, c.RtspPass = "q191201771", "pengrl"
 	}
+	defHttp := map[string]interface{}{"http_listen_addr": s.HttpAddr()}
+	if c.FlvHttpsOnly || c.TsHttpsOnly {
+		certFile, keyFile, err := writeSelfSignedCert(filepath.Join(root, "logs"))
+		if err != nil {
+			return nil, err
+		}
+		defHttp["https_listen_addr"] = s.HttpsAddr()
+		defHttp["https_cert_file"] = certFile
+		defHttp["https_key_file"] = keyFile
+	}
 	m := map[string]interface{}{
 		"conf_version": base.ConfVersion,
 		"rtmp": map[string]interface{}{"enable": true, "addr": s.RtmpAddr(), "gop_num": c.RtmpGop, "single_gop_max_frame_num": c.RtmpGopCap, "merge_write_size": c.MergeWrite},
 		"in_session":   map[string]interface{}{"add_dummy_audio_enable": c.DummyAudio, "add_dummy_audio_wait_audio_ms": c.DummyAudioWaitMs},
-		"default_http": map[string]interface{}{"http_listen_addr": s.HttpAddr()},
-		"httpflv":      map[string]interface{}{"enable": c.Flv, "url_pattern": "/live/", "gop_num": c.FlvGop, "single_gop_max_frame_num": c.FlvGopCap},
-		"httpts":       map[string]interface{}{"enable": c.Ts, "url_pattern": "/live/", "gop_num": c.TsGop, "single_gop_max_frame_num": c.TsGopCap},
+		"default_http": defHttp,
+		"httpflv":      map[string]interface{}{"enable": c.Flv && !c.FlvHttpsOnly, "enable_https": c.Flv && c.FlvHttpsOnly, "url_pattern": "/live/", "gop_num": c.FlvGop, "single_gop_max_frame_num": c.FlvGopCap},
+		"httpts":       map[string]interface{}{"enable": c.Ts && !c.TsHttpsOnly, "enable_https": c.Ts && c.TsHttpsOnly, "url_pattern": "/live/", "gop_num": c.TsGop, "single_gop_max_frame_num": c.TsGopCap},
 		"hls": map[string]interface{}{"enable": c.Hls && !c.HlsHttpsOnly, "enable_https": c.Hls && c.HlsHttpsOnly, "url_pattern": "/hls/", "out_path": s.HlsDir, "fragment_duration_ms": c.HlsFragMs, "fragment_num": c.HlsFragNum,
 			"delete_threshold": c.HlsDelThr, "cleanup_mode": c.HlsCleanup, "use_memory_as_disk_flag": c.HlsMem, "sub_session_timeout_ms": c.HlsSubTimeoutMs, "sub_session_hash_key": c.HlsHashKey},
 		"rtsp": map[string]interface{}{"enable": c.Rtsp, "addr": s.RtspAddr(), "out_wait_key_frame_flag": c.RtspWaitKey, "auth_enable": c.RtspAuthEnable, "auth_method": c.RtspAuthMethod,
@@ -224,8 +244,11 @@ func start1(c Conf, root string) (*Server, error) {
 	go func() { s.done <- s.Lal.RunLoop() }()
 	// wait for the listeners
 	need := []int{s.Ports.Rtmp}
-	if c.Flv || c.Ts || c.Hls {
+	if (c.Flv && !c.FlvHttpsOnly) || (c.Ts && !c.TsHttpsOnly) || (c.Hls && !c.HlsHttpsOnly) {
 		need = append(need, s.Ports.Http)
+	}
+	if (c.Flv && c.FlvHttpsOnly) || (c.Ts && c.TsHttpsOnly) {
+		need = append(need, s.Ports.Https)
 	}
 	if c.Rtsp {
 		need = append(need, s.Ports.Rtsp)
@@ -534,4 +557,29 @@ func (s *Server) InstallHook(keep bool) *HookRecorder {
 	r := &HookRecorder{Keep: keep}
 	s.Lal.WithOnHookSession(r.New)
 	return r
+}
+
+
+// writeSelfSignedCert writes a fresh self-signed certificate for 127.0.0.1 (ECDSA P-256) and its key as PEM files.
+func writeSelfSignedCert(dir string) (certFile, keyFile string, err error) {
+	key, err := ecdsa.GenerateKey(elliptic.P256(), crand.Reader)
+	if err != nil {
+		return "", "", err
+	}
+	tmpl := x509.Certificate{SerialNumber: big.NewInt(1), Subject: pkix.Name{CommonName: "lalverif"}, NotBefore: time.Now().Add(-time.Hour), NotAfter: time.Now().Add(24 * time.Hour),
+		KeyUsage: x509.KeyUsageDigitalSignature, ExtKeyUsage: []x509.ExtKeyUsage{x509.ExtKeyUsageServerAuth}, IPAddresses: []net.IP{net.IPv4(127, 0, 0, 1)}}
+	der, err := x509.CreateCertificate(crand.Reader, &tmpl, &tmpl, &key.PublicKey, key)
+	if err != nil {
+		return "", "", err
+	}
+	kb, err := x509.MarshalECPrivateKey(key)
+	if err != nil {
+		return "", "", err
+	}
+	certFile, keyFile = filepath.Join(dir, "cert.pem"), filepath.Join(dir, "key.pem")
+	if err = os.WriteFile(certFile, pem.EncodeToMemory(&pem.Block{Type: "CERTIFICATE", Bytes: der}), 0644); err != nil {
+		return "", "", err
+	}
+	err = os.WriteFile(keyFile, pem.EncodeToMemory(&pem.Block{Type: "EC PRIVATE KEY", Bytes: kb}), 0600)
+	return certFile, keyFile, err
 }
